@@ -33,7 +33,7 @@ type Config struct {
 type Explorer struct {
 	mu      sync.Mutex
 	cond    *sync.Cond
-	stack   [][]int
+	stack   []workItem
 	busy    int
 	done    bool
 	paths   []*PathResult
@@ -41,19 +41,24 @@ type Explorer struct {
 	stopped string
 }
 
-func (ex *Explorer) push(dv []int) {
+type workItem struct {
+	dv    []int
+	model *Model
+}
+
+func (ex *Explorer) push(it workItem) {
 	ex.mu.Lock()
-	ex.stack = append(ex.stack, dv)
+	ex.stack = append(ex.stack, it)
 	ex.mu.Unlock()
 	ex.cond.Signal()
 }
 
-func (ex *Explorer) pop() ([]int, bool) {
+func (ex *Explorer) pop() (workItem, bool) {
 	ex.mu.Lock()
 	defer ex.mu.Unlock()
 	for {
 		if ex.stopped != "" {
-			return nil, false
+			return workItem{}, false
 		}
 		if n := len(ex.stack); n > 0 {
 			dv := ex.stack[n-1]
@@ -64,7 +69,7 @@ func (ex *Explorer) pop() ([]int, bool) {
 		if ex.busy == 0 {
 			ex.done = true
 			ex.cond.Broadcast()
-			return nil, false
+			return workItem{}, false
 		}
 		ex.cond.Wait()
 	}
@@ -100,6 +105,7 @@ type Worker struct {
 	hostWG   sync.WaitGroup
 	pathDone chan struct{}
 	extCache map[*ssa.Function]extFn
+	modelHits int
 	harness  *ssa.Function
 }
 
@@ -114,10 +120,11 @@ func (w *Worker) initOK(pkg *ssa.Package) bool {
 }
 
 // runPath executes the harness once along decision vector dv.
-func (w *Worker) runPath(dv []int) (res *PathResult) {
+func (w *Worker) runPath(it workItem) (res *PathResult) {
+	dv := it.dv
 	in := &Interp{w: w, prog: w.prog, ts: w.ts,
 		globals: map[*ssa.Global]*value{}, initing: map[*ssa.Package]bool{},
-		dv: dv, known: map[*Term]bool{}, inputCount: map[string]int{},
+		dv: dv, model: it.model.forWorker(), known: map[*Term]bool{}, inputCount: map[string]int{},
 		locks: map[*value]*lockState{}, wg: map[*value]int{}, objIDs: map[*value]int{},
 		concreteIn: w.cfg.Concrete,
 		res:        &PathResult{Asserts: map[string]*assertStat{}, Reach: map[string]int{}},
@@ -145,8 +152,13 @@ func (w *Worker) runPath(dv []int) (res *PathResult) {
 					}
 				}
 			}()
-			if in.check() == RSat {
-				c := &cexRec{Label: in.res.Outcome, Kind: in.res.Outcome, Values: in.snapshotModel(), Choices: in.choiceList(), Detail: in.res.Msg, PC: in.pcString()}
+			in.flush()
+			m := in.model
+			if m == nil && in.check() == RSat {
+				m = in.fetchModel()
+			}
+			if m != nil {
+				c := &cexRec{Label: in.res.Outcome, Kind: in.res.Outcome, Values: in.snapshotModel(m), Choices: in.choiceList(), Detail: in.res.Msg, PC: in.pcString()}
 				if in.res.Outcome == "end" {
 					in.res.Sample = c
 				} else {
@@ -185,7 +197,7 @@ func Explore(prog *ssa.Program, harness *ssa.Function, cfg *Config, redirect map
 	t0 := time.Now()
 	ex := &Explorer{}
 	ex.cond = sync.NewCond(&ex.mu)
-	ex.stack = [][]int{{}}
+	ex.stack = []workItem{{}}
 	var wg sync.WaitGroup
 	workers := make([]*Worker, cfg.Workers)
 	for i := range workers {
@@ -240,6 +252,9 @@ func Explore(prog *ssa.Program, harness *ssa.Function, cfg *Config, redirect map
 		rr.Cex = append(rr.Cex, p.Cex...)
 		if p.Sample != nil && len(rr.Samples) < 5 {
 			rr.Samples = append(rr.Samples, p.Sample)
+		}
+		if cfg.Concrete != nil {
+			fmt.Fprintf(os.Stderr, "concrete path outcome: %s %s\n", p.Outcome, p.Msg)
 		}
 		switch p.Outcome {
 		case "end", "dead", "panic", "deadlock":
